@@ -330,6 +330,10 @@ def tokens(chk, rule='C09.R3'):
                     cmp_.setdefault(r.attr, []).append((role, f'{cname}.{mname}', r))
                 elif isinstance(p, ast.Call) and isinstance(p.func, ast.Attribute) and p.func.attr == 'put':
                     put.setdefault(r.attr, []).append((role, f'{cname}.{mname}', r))
+                elif isinstance(p, (ast.Tuple, ast.List, ast.Set, ast.Dict)) and any(isinstance(x, ast.Compare) and any(isinstance(o, (ast.Is, ast.IsNot, ast.Eq, ast.NotEq, ast.In, ast.NotIn)) for o in x.ops)
+                                                                                  for x in ast.walk(fn)):
+                    # the token sits in a table the method compares received messages with (dispatch table / membership test)
+                    cmp_.setdefault(r.attr, []).append((role, f'{cname}.{mname}', r))
     for n in names:
         puts = [x for x in put.get(n, []) if x[0] == 'main']
         cmps = [x for x in cmp_.get(n, []) if x[0] == 'seat']
